@@ -29,7 +29,7 @@ def sym_table(ctx, n):
     return list(zip(ids, addrs))
 
 
-def o1_update(ctx, role, lvl, n, frames=1, tr=None):
+def o1_update(ctx, role, lvl, n, frames=1, tr=None, first=None):
     clock = fresh_env(ctx)
     radio, node, addr = build_node(ctx, clock, role, lvl)
     link, outcome = per_packet_link(ctx, radio)
@@ -39,6 +39,14 @@ def o1_update(ctx, role, lvl, n, frames=1, tr=None):
     payloads = []
     for f in range(frames):
         payload = ctx.bytes("rx%d" % f if frames > 1 else "rx", n)
+        if f == 0 and frames > 1 and first is not None:
+            # the first frame of a sequence is restricted to the frames after which update() keeps reading: addressed to the
+            # multicast address (first="multicast") or to multicast / the node itself (first="consumed"); its other fields stay symbolic
+            to = payload[2] | (payload[3] << 8)
+            if isinstance(first, int):  # quick tier: a multicast-addressed frame of the given type from an unassigned node
+                ctx.assume(s_and(to == 0o100, (payload[0] | (payload[1] << 8)) == 0o4444, payload[6] == first))
+            else:
+                ctx.assume(s_or(to == 0o100, to == addr))
         radio.inject_rx(ctx.int("pipe%d" % f if frames > 1 else "pipe", 0, 5), blist(payload))
         payloads.append(payload)
         if tr is not None and n >= 8:  # the exploration is split over message-type ranges (parallelism only)
@@ -97,11 +105,13 @@ def jobs(tier):
             for n in lens:
                 out.append(Job("O1-update-arbitrary-frame", o1_update, dict(role=role, lvl=lvl, n=n),
                                cost=(0.1 if n < 8 else 10 + lvl * 5), shards=(1 if n < 8 else 6)))
+    # sequences of two frames read in one update() pass (state carried from the first to the second)
+    for t in (195, 194, 1):
+        out.append(Job("O1-update-two-frames", o1_update, dict(role="master", lvl=0, n=8, frames=2, first=t), cost=400, shards=6))
     if tier == "thorough":
         for role in ROLES:
-            for n in (8, 10):
-                out.append(Job("O1-update-two-frames", o1_update, dict(role=role, lvl=0 if role == "master" else 2, n=n, frames=2),
-                               cost=200))
+            out.append(Job("O1-update-two-frames", o1_update, dict(role=role, lvl=0 if role == "master" else 2, n=8, frames=2, first="consumed"),
+                           cost=2000, shards=16))
     for kind in ("none", "neg", "low", "high"):
         out.append(Job("O2-is_address_valid", o2_valid, dict(kind=kind), cost=5))
     return out
@@ -109,10 +119,10 @@ def jobs(tier):
 
 META = {
     "bounds": {"quick": "O1: 4 roles, 3 levels each (symbolic digits), payload lengths from {0,1,7,8,9,10,12,32} (six on the master), all payload bytes "
-                        "symbolic, pipe symbolic, one symbolic outcome per transmitted packet, master with 2 arbitrary leases; "
+                        "symbolic, pipe symbolic, one symbolic outcome per transmitted packet, master with 2 arbitrary leases; on the master also two-frame sequences whose first frame is a multicast-addressed frame of type 195 / 194 / 1 from 0o4444 (symbolic id / reserved) and whose second frame is arbitrary; "
                         "O2: a symbolic in [-65536, 131072] and None",
-               "thorough": "every length 0..32, plus sequences of two arbitrary frames"},
-    "outside": ["sequences of more than 2 frames", "lease tables with more than 2 entries (C16 goes to 5)",
+               "thorough": "every length 0..32; two-frame sequences on every role whose first frame is addressed to the multicast address or the node itself"},
+    "outside": ["sequences of more than 2 frames; two-frame sequences whose first frame is routed elsewhere (update() returns after it)", "lease tables with more than 2 entries (C16 goes to 5)",
                 "the mesh node at the unassigned address 0o4444 is covered as level-4 instance 0o4444 of the symbolic digits"],
     "assumptions": ["one outcome per transmitted packet (all automatic and forced retries of that packet share it)",
                     "virtual clock, 1 ms tick; SimRadio; reference address predicate specs/net_spec.valid_or_multicast"],
